@@ -32,7 +32,7 @@ import re
 from mitmproxy.proxy import layers
 from mitmproxy.proxy.layers.http import HTTPMode
 
-from vf import peers, peers_h2 as P, sansio
+from vf import peers, peers_h2 as P, peers_h3 as Q, sansio
 from vf.ref import http1 as ref
 
 PROPERTY = "C06"
@@ -63,7 +63,7 @@ LEVEL_TEXT = (
 )
 LEVEL_NOTE = "Trusted: vf/ref/http1.py, hyper-h2/hpack/hyperframe, the sans-io driver's model of ConnectionHandler (vf/sansio.py)."
 
-PAIRS = ["h2h1"] * 5 + ["h1h2"] * 3 + ["h2h2"] * 2
+PAIRS = ["h2h1"] * 5 + ["h1h2"] * 3 + ["h2h2"] * 2 + ["h3h1"] * 2 + ["h3h2"]
 MODES = ["regular", "reverse:http://example.com:80", "transparent"]
 HOP = {"connection", "keep-alive", "proxy-connection", "transfer-encoding", "upgrade", "te"}
 FRAMING = {"content-length", "host"}
@@ -105,7 +105,7 @@ def gen_request(r, k, mode, cv):
     headers = [(b"x-tag", tag)]
     pool = [
         (b"accept", b"*/*"), (b"user-agent", b"vf/1.0 (x; y)"), (b"x-multi", b"one"), (b"x-multi", b"two, three"), (b"x-empty", b""),
-        (b"x-colon", b"a: b, c;d=\"e\""), (b"x-obs", b"caf\xe9"), (b"accept-language", b"de, en;q=0.5"), (b"x-long", b"L" * r.choice([300, 5000])),
+        (b"x-colon", b"a: b, c;d=\"e\""), (b"x-obs", b"caf\xe9"), (b"accept-language", b"de, en;q=0.5"), (b"x-long", b"L" * r.choice([300, 5000] if cv != "h3" else [300, 2000])),
         (b"authorization", b"Basic dXNlcjpwYXNz"), (b"x-tab", b"a\tb"), (b"referer", b"http://example.com/" + tag),
     ]
     for h in r.sample(pool, r.randint(0, 6)):
@@ -124,7 +124,7 @@ def gen_request(r, k, mode, cv):
             feats.add("body-embedded-request")
     declare_cl = r.random() < 0.5
     trailers = None
-    if cv == "h2" and body and r.random() < 0.25:
+    if cv in ("h2", "h3") and body and r.random() < 0.25:
         trailers = [(b"x-trailer", tag), (b"x-sum", b"1")][: r.choice([1, 2])]
         feats.add("req-trailers")
     if body is not None:
@@ -324,6 +324,13 @@ REQ_MUTATIONS = {
     "missing-scheme": lambda b, q, r: [h for h in b if h[0] != b":scheme"],
     "path-no-slash": lambda b, q, r: _set(b, b":path", q["tag"]),
     "path-absolute-uri": lambda b, q, r: _set(b, b":path", b"http://evil.example/" + q["tag"]),
+    "path-authority-form": lambda b, q, r: _set(b, b":path", b"evil.example:8080"),
+    "path-no-slash-query": lambda b, q, r: _set(b, b":path", q["tag"] + b"?x=1"),
+    "path-asterisk-options": lambda b, q, r: _set(_set(b, b":method", b"OPTIONS"), b":path", b"*"),  # the one legitimate slash-less :path
+    "authority-odd-port": lambda b, q, r: _set(b, b":authority", r.choice([b"example.com:99999", b"example.com:abc", b"example.com:", b"example.com:80:80"])),
+    "tab-in-authority": lambda b, q, r: _set(b, b":authority", b"example.com\tx"),
+    "dup-scheme": lambda b, q, r: b[:4] + [(b":scheme", b"https")] + b[4:],
+    "scheme-uppercase-or-empty": lambda b, q, r: _set(b, b":scheme", r.choice([b"", b"HTTPS", b"http ", b"h2"])),
     "path-asterisk-non-options": lambda b, q, r: _set(b, b":path", b"*"),
     "scheme-odd": lambda b, q, r: _set(b, b":scheme", r.choice([b"ftp", b"http://x", b"HTTP"])),
     "host-differs-from-authority": lambda b, q, r: b + [(b"host", b"evil.example")],
@@ -358,16 +365,17 @@ RESP_MUTATIONS = {
 RESP_CL_MUTATIONS = ["cl-more-than-data", "cl-less-than-data", "cl-positive-end-stream-on-headers"]
 
 
-def make_adversarial_request(r, q, key_sid):
-    """-> script for RawH2Client (list of frames for stream key_sid) + feature set + the block actually sent + the DATA sent."""
+def make_adversarial_request(r, q, key_sid, force=None):
+    """-> script for RawH2Client / RawH3Client (frames for stream key_sid) + feature set + the block actually sent + the DATA sent.
+    force = name of exactly one mutation (fixed matrix)."""
     block = h2_request_block(q)
     feats = []
     data = q["body"] or b""
     end_on_headers = not data
-    nm = r.choice([1, 1, 1, 2])
+    nm = 1 if force else r.choice([1, 1, 1, 2])
     for _ in range(nm):
-        if r.random() < 0.18:
-            m = r.choice(CL_MUTATIONS)
+        if (force in CL_MUTATIONS) if force else (r.random() < 0.18):
+            m = force or r.choice(CL_MUTATIONS)
             block = [h for h in block if h[0] != b"content-length"]
             if m == "cl-more-than-data":
                 data = data or b"abc"
@@ -386,7 +394,7 @@ def make_adversarial_request(r, q, key_sid):
                 block.append((b"content-length", b"0"))
                 end_on_headers = False
         else:
-            m = r.choice(sorted(REQ_MUTATIONS))
+            m = force or r.choice(sorted(REQ_MUTATIONS))
             block = REQ_MUTATIONS[m](block, q, r)
         feats.append(m)
     script = [("headers", key_sid, block, end_on_headers, {"split": r.choice([0, 0, 7, 40]), "never_index": r.random() < 0.2})]
@@ -495,8 +503,8 @@ def diff_request(exp, got, to_h1):
         d.append(("host-field", got["hosts"], exp["authority"]))
     if to_h1 and got.get("ncookie_fields", 0) > 1:
         d.append(("cookie-fields-not-joined", got["ncookie_fields"]))
-    if not to_h1 and got.get("scheme") != b"http":
-        d.append(("scheme", got.get("scheme")))
+    if not to_h1 and got.get("scheme") != exp.get("scheme", b"http"):
+        d.append(("scheme", got.get("scheme"), exp.get("scheme", b"http")))
     return d
 
 
@@ -552,6 +560,8 @@ def wire_facts_h1_request(data: bytes):
         # complete head announcing N > 0 octets of which fewer than N follow
         "cl_exceeds_bytes_written": bool(sep) and len(cl) == 1 and cl[0].isdigit() and b"transfer-encoding" not in names and int(cl[0]) > len(after),
         "has_chunked_te": b"transfer-encoding" in names,
+        # complete head announcing N octets, more than N follow on a connection that carries a single request
+        "bytes_exceed_cl": bool(sep) and len(cl) == 1 and cl[0].isdigit() and b"transfer-encoding" not in names and len(after) > int(cl[0]),
         "no_framing_fields": bool(sep) and b"content-length" not in names and b"transfer-encoding" not in names,
     }
 
@@ -604,7 +614,7 @@ def classify(kind, info):
         if kind == "client-h2-rejects-proxy-bytes" and info.get("only_body_length_errors"):
             return "h2-trailers-towards-http1-peer-unhandled"
 
-    if pair == "h2h1" and kind in up_kinds + ("valid-request-not-answered",):
+    if pair in ("h2h1", "h3h1") and kind in up_kinds + ("valid-request-not-answered",):
         # (a) SP / HTAB / DEL of :path or :method visible in the HTTP/1 request line that was written          [fixed be347c8e3]
         if wire.get("ws_in_request_line") and kind in up_kinds:
             return "h2-request-target-or-method-with-whitespace-reaches-http1-request-line"
@@ -620,7 +630,21 @@ def classify(kind, info):
         if wire.get("cl_exceeds_bytes_written") and info.get("ended_on_headers") and kind in up_kinds:
             return "h2-request-content-length-without-data-forwarded-to-http1"
     #     (b) when that raw body is itself an HTTP/1 request the origin answers twice; the surplus response hits a finished stream
-    if pair == "h2h1" and kind == "layer-exception" and info.get("origin_saw_two_requests_after_unframed_head") and exc == {"AssertionError@utils.py:_check_event_type"}:
+    # (f) HTTP/3 only (aioquic validates less than hyper-h2): Host differing from :authority, connection-specific fields
+    blk = info.get("h3_block") or {}
+    if pair == "h3h1" and kind == "upstream-request-differs" and blk.get("host_differs_from_authority") and info.get("diff_keys", set()) <= {"authority", "host-field", "ambiguous-block-forwarded"}:
+        return "h3-request-host-differing-from-authority-forwarded"
+    if pair == "h3h2" and kind == "origin-h2-rejects-proxy-bytes" and blk.get("host_differs_from_authority") and not blk.get("connection_specific"):
+        return "h3-request-host-differing-from-authority-forwarded"
+    if pair == "h3h2" and kind == "origin-h2-rejects-proxy-bytes" and blk.get("connection_specific"):
+        return "h3-request-connection-specific-field-forwarded-to-http2"
+    # (g) HTTP/3 only: aioquic compares content-length with the DATA received at the END of the stream; with request streaming
+    #     the surplus octets have already been written behind a Content-Length framed HTTP/1 head by then
+    if pair == "h3h1" and kind in up_kinds and wire.get("bytes_exceed_cl") and info.get("stream_req"):
+        return "h3-streamed-request-data-exceeding-content-length-forwarded-to-http1"
+    if pair == "h3h2" and kind == "origin-h2-rejects-proxy-bytes" and blk.get("data_exceeds_cl") and info.get("stream_req") and info.get("only_body_length_errors"):
+        return "h3-streamed-request-data-exceeding-content-length-forwarded-to-http2"
+    if pair in ("h2h1", "h3h1") and kind == "layer-exception" and info.get("origin_saw_two_requests_after_unframed_head") and exc == {"AssertionError@utils.py:_check_event_type"}:
         return "h2-request-body-without-content-length-sent-unframed-to-http1"
 
     if pair == "h1h2" and kind in ("h1-client-bytes-not-a-response-sequence", "downstream-response-differs"):
@@ -637,19 +661,34 @@ def classify(kind, info):
 # one case
 # ----------------------------------------------------------------------------------------------------------------------
 
-def run_case(ctx, opts):
+def run_case(ctx, opts, forced=None):
+    """forced = (pair, mutation name): one deterministic cell of the fixed matrix (single exchange, exactly that adversarial class)."""
     r = ctx.rng
     pair = r.choice(PAIRS)
-    cv, sv = pair[:2], pair[2:]
     mode = r.choice(MODES)
+    if forced is not None:
+        pair = forced[0]
+    cv, sv = pair[:2], pair[2:]
+    if cv == "h3" and mode.startswith("reverse"):
+        mode = "transparent"  # the HTTP/3 leg drives HttpLayer directly (regular / transparent), see vf/peers_h3.py
     salt = r.getrandbits(32)
     nreq = r.choice([1, 1, 2])
+    if forced is not None or cv == "h3":
+        nreq = 1
     reqs = [gen_request(r, k, mode, cv) for k in range(nreq)]
+    if forced is not None:
+        for q in reqs:  # matrix cells isolate ONE adversarial class: the rest of the message is framed conventionally
+            q["declare_cl"], q["trailers"] = True, None
+            q["feats"] -= {"no-cl", "req-trailers"}
+            if q["body"] is not None:
+                q["feats"].add("cl")
     by_tag = {q["tag"]: q for q in reqs}
-    adv_req = cv == "h2" and r.random() < 0.55
+    adv_req = cv in ("h2", "h3") and r.random() < 0.55
     adv_resp = sv == "h2" and r.random() < 0.35
     stream_req = r.random() < 0.2
     stream_resp = r.random() < 0.2
+    if forced is not None:
+        adv_req, adv_resp, stream_req, stream_resp = cv != "h1", False, False, False
     # flow-control pressure towards h2 next hops: the origin's window limits request bodies, the client's window response bodies
     srv_window = pick_window(r, [len(q["body"] or b"") for q in reqs]) if sv == "h2" else None
     cli_window = pick_window(r, [len(gen_response(salt, q["tag"], q["method"], sv)["body"]) for q in reqs]) if cv == "h2" else None
@@ -706,15 +745,35 @@ def run_case(ctx, opts):
             f.response.stream = True
         return None
 
-    client = sansio.make_client(mode)
-    d = sansio.Driver(top_factory(mode), client=client, options=opts, rng=r, addons=[ForceHttp()], policy=policy, server_factory=server_factory,
-                      schedule=r.choice(["random", "random", "fifo"]), snapshot=sansio.http_snapshot, max_steps=4000)
+    if cv == "h3":
+        client = sansio.make_client(mode, transport="udp")
+        client.alpn = b"h3"
+        hmode = HTTPMode.regular if mode == "regular" else HTTPMode.transparent
+        d = Q.H3Driver(lambda c: layers.HttpLayer(c, hmode), client=client, options=opts, rng=r, addons=[], policy=policy, server_factory=server_factory,
+                       schedule=r.choice(["random", "random", "fifo"]), snapshot=sansio.http_snapshot, max_steps=4000)
+    else:
+        client = sansio.make_client(mode)
+        d = sansio.Driver(top_factory(mode), client=client, options=opts, rng=r, addons=[ForceHttp()], policy=policy, server_factory=server_factory,
+                          schedule=r.choice(["random", "random", "fifo"]), snapshot=sansio.http_snapshot, max_steps=4000)
     if mode == "transparent":
         d.context.server.address = ("example.com", 80)
 
     raw_client = False
     client_killed_by_side_finding = False
-    if cv == "h1":
+    if cv == "h3":
+        raw_client = True
+        script = []
+        for k, q in enumerate(reqs):
+            if adv_req:
+                sc, feats, block, data = make_adversarial_request(r, q, k, force=forced[1] if forced else None)
+                q["adv"] = {"feats": feats, "block": block, "data": data, "end_on_headers": sc[0][3]}
+                q["feats"] |= set(feats)
+                sc = [a[:4] for a in sc]
+            else:
+                sc = [a if a[0] != "trailers" else ("headers", a[1], a[2], True) for a in h2_request_actions(r, q, k)]
+            script += sc
+        cpeer = Q.RawH3Client(script, r)
+    elif cv == "h1":
         stream_bytes = b"".join(render_h1_request(r, q, mode) for q in reqs)
         cpeer = sansio.ScriptPeer(peers.cut(stream_bytes, r, r.choice(["whole", "random", "random", "bytes"] if len(stream_bytes) < 2000 else ["whole", "random"])))
     else:
@@ -724,7 +783,7 @@ def run_case(ctx, opts):
             script = []
             for k, q in enumerate(reqs):
                 if k == 0 or r.random() < 0.5:
-                    sc, feats, block, data = make_adversarial_request(r, q, 2 * k + 1)
+                    sc, feats, block, data = make_adversarial_request(r, q, 2 * k + 1, force=forced[1] if forced else None)
                     q["adv"] = {"feats": feats, "block": block, "data": data, "end_on_headers": sc[0][3]}
                     q["feats"] |= set(feats)
                 else:
@@ -747,6 +806,9 @@ def run_case(ctx, opts):
     d.teardown()
     if DEBUG is not None:
         DEBUG(locals())
+    if cv == "h3" and cpeer.unencodable:
+        ctx.count("h3_block_not_encodable")  # e.g. empty field name: ls-qpack cannot produce it, nothing was sent
+        return None
     if d.budget_exceeded or (cv == "h2" and not raw_client and cpeer.script_errors):
         ctx.count("inconclusive_cases")
         return None
@@ -757,11 +819,23 @@ def run_case(ctx, opts):
     resp_feats = sorted(set().union(*[rs["feats"] | set((rs["adv"] or {}).get("feats", ())) for rs in responses.values()])) if responses else []
     up_wire = {id(p): wire_facts_h1_request(bytes(p.received)) for _, p in origin_h1}
     up_bytes_all = b"".join(bytes(p.received) for _, p in origin_h1)
+    def _h3_block_facts():
+        if cv != "h3" or not reqs or reqs[0]["adv"] is None:
+            return None
+        blk = reqs[0]["adv"]["block"]
+        auth = [v for n, v in blk if n == b":authority"]
+        return {
+            "host_differs_from_authority": bool(auth) and any(n == b"host" and v != auth[0] for n, v in blk),
+            "data_exceeds_cl": any(n == b"content-length" and v.isdigit() and int(v) < len(reqs[0]["adv"]["data"]) for n, v in blk),
+            "connection_specific": any(n.lower() in (b"connection", b"proxy-connection", b"keep-alive", b"transfer-encoding", b"upgrade") or (n.lower() == b"te" and v.strip().lower() != b"trailers") for n, v in blk),
+        }
+
     info = {
+        "h3_block": _h3_block_facts(), "stream_req": stream_req,
         "pair": pair, "exc_sites": {f"{e[0]}@{e[1]}" for e in d.exceptions},
         # a message with trailers really was on its way to an HTTP/1 peer: request with trailers whose head reached an HTTP/1 origin,
         # or an h2 origin that sent a trailers block to an HTTP/1 client's exchange
-        "trailers_sent_towards_h1": (pair == "h2h1" and any(q["trailers"] and q["adv"] is None and q["tag"] in up_bytes_all for q in reqs))
+        "trailers_sent_towards_h1": (pair in ("h2h1", "h3h1") and any(q["trailers"] and q["adv"] is None and q["tag"] in up_bytes_all for q in reqs))
         or (pair == "h1h2" and any(any(a[0] == "trailers" for a in acts) for acts in resp_sent.values() if isinstance(acts, list))),
         "origin_saw_two_requests_after_unframed_head": any(up_wire[id(p)]["unframed_body"] and len(ref.parse_requests(bytes(p.received))[1]) > 1 for _, p in origin_h1),
         "origin_sent_cl_without_data": any(
@@ -769,7 +843,8 @@ def run_case(ctx, opts):
             for acts in resp_sent.values()),
     }
     base = {"pair": pair, "mode": mode, "req_feats": req_feats, "resp_feats": resp_feats, "stream_req": stream_req, "stream_resp": stream_resp, "srv_window": srv_window, "cli_window": cli_window, "hooks": d.hook_names()[:40],
-            "exceptions": [e[:2] for e in d.exceptions], "client_sent": (getattr(cpeer, "sent_bytes", None) or b"".join(s for s in getattr(cpeer, "segments", []) if isinstance(s, bytes)))[:1200]}
+            "exceptions": [e[:2] for e in d.exceptions], "client_sent": (repr(cpeer.sent_blocks)[:1200] if cv == "h3" else (getattr(cpeer, "sent_bytes", None) or b"".join(s for s in getattr(cpeer, "segments", []) if isinstance(s, bytes)))[:1200]),
+            "matrix_cell": list(forced) if forced else None}
 
     def viol(kind, extra, more=None):
         ctx.violation(kind, {**base, **extra}, classify(kind, {**info, **(more or {})}))
@@ -780,7 +855,7 @@ def run_case(ctx, opts):
     for conn, p in origin_h2:
         ctx.count("peer.protocol")
         if p.protocol_errors:
-            viol("origin-h2-rejects-proxy-bytes", {"errors": p.protocol_errors})
+            viol("origin-h2-rejects-proxy-bytes", {"errors": p.protocol_errors}, {"only_body_length_errors": all(e.startswith("InvalidBodyLengthError") for e in p.protocol_errors)})
     if cv == "h2" and not raw_client:
         ctx.count("peer.protocol")
         head_page = any(q["method"] == b"HEAD" for q in reqs) and all(e.startswith("InvalidBodyLengthError: InvalidBodyLengthError: Expected 0 bytes") for e in cpeer.protocol_errors) and "error" in d.hook_names()
@@ -802,7 +877,7 @@ def run_case(ctx, opts):
                 continue
             status, msgs, rest = ref.parse_requests(data)
             tags_here = set(TAGRE.findall(data)) & set(by_tag)
-            if cv == "h2":
+            if cv in ("h2", "h3"):
                 ctx.count("up.h1.single")
                 if status == "incomplete" and not msgs and origin_closed_by_proxy.get(id(p)):
                     # one unfinished message, then mitmproxy closed the connection: the only way to abort an HTTP/1 message that
@@ -871,9 +946,10 @@ def run_case(ctx, opts):
             viol("more-responses-than-requests", {"down": down[:900]})
     else:
         for k, q in enumerate(reqs):
-            rec = cpeer.streams.get(2 * k + 1)
+            rec = cpeer.streams.get(4 * k if cv == "h3" else 2 * k + 1)
+            conn_refused = (cpeer.conn_close is not None) if cv == "h3" else (cpeer.goaway is not None)
             if rec is None or (rec["headers"] is None and rec["reset"] is None):
-                client_outcome[q["tag"]] = "goaway" if (cpeer.goaway is not None or client_closed_by_proxy) else "none"
+                client_outcome[q["tag"]] = "goaway" if (conn_refused or client_closed_by_proxy) else "none"
             elif rec["reset"] is not None and not rec["ended"]:
                 client_outcome[q["tag"]] = "reset"
             elif own_page_h2(rec):
@@ -943,7 +1019,8 @@ def run_case(ctx, opts):
                 auth = ps.get(b":authority", [None])[0]
                 if auth is None and len(hosts) == 1:
                     auth = hosts[0]
-                exp = {"method": ps.get(b":method", [None])[0], "authority": auth, "path": ps.get(b":path", [None])[0], "fields": e2e(blk), "cookies": cookies_of(blk)[1], "body": q["adv"]["data"], "trailers": None}
+                exp = {"method": ps.get(b":method", [None])[0], "authority": auth, "path": ps.get(b":path", [None])[0], "fields": e2e(blk), "cookies": cookies_of(blk)[1], "body": q["adv"]["data"], "trailers": None,
+                       "scheme": ps.get(b":scheme", [None])[0]}
                 df = diff_request(exp, got, sv == "h1")
                 if set(q["adv"]["feats"]) & set(CL_MUTATIONS):
                     # the block contradicts its own DATA frames: which body it "means" is undefined; what must hold is that the
@@ -971,7 +1048,7 @@ def run_case(ctx, opts):
             df = diff_response(expected_response_sem(rs), down_by_tag[tag])
             gt = down_by_tag[tag]
             if rs["trailers"]:
-                if cv == "h2" and gt["trailers"] != rs["trailers"]:
+                if cv in ("h2", "h3") and gt["trailers"] != rs["trailers"]:
                     df.append(("trailers", gt["trailers"], rs["trailers"]))
                 elif cv == "h1" and gt["framing"] == "chunked" and gt["trailers"] != rs["trailers"]:
                     df.append(("trailers", gt["trailers"], rs["trailers"]))
@@ -1004,6 +1081,11 @@ def run_case(ctx, opts):
     return sig, (cv != sv) or hostile, sample
 
 
+# Fixed matrix, run before the random cases in every tier: every adversarial pseudo-header / content-length class on every
+# (client version with pseudo-headers) x (next-hop version) pair.
+MATRIX = [(pair, m) for pair in ("h2h1", "h2h2", "h3h1", "h3h2") for m in sorted(REQ_MUTATIONS) + CL_MUTATIONS]
+
+
 def run(ctx):
     tctx, addons = sansio.addon_context()
     opts = tctx.options
@@ -1011,7 +1093,11 @@ def run(ctx):
     opts.http2_ping_keepalive = 0  # keep-alive PING timers would re-arm forever under a scheduler without a clock
     try:
         for i in ctx.cases():
-            res = ctx.guard(run_case, ctx, opts, what="c06 case")
+            k = i * ctx.nworkers + ctx.worker  # matrix cell k is run by worker k % nworkers as its case k // nworkers
+            forced = MATRIX[k] if k < len(MATRIX) else None
+            if forced is not None:
+                ctx.count("matrix.cells")
+            res = ctx.guard(run_case, ctx, opts, forced, what="c06 case")
             if res is None:
                 ctx.case(("aborted",), False)
                 continue
